@@ -120,6 +120,14 @@ def fmtEnc : EncEv → String
 def peek (c : Conn) : String :=
   s!"st={c.streams.length},{c.closedStreams.length},{c.cstate.name},{c.highestIn},{c.highestOut},{c.outWin},{c.inWM.current_window_size},{c.inWM.max_window_size},{c.maxOutFrame},{c.maxInFrame},{c.fb.data.length}"
 
+def peekStreams (c : Conn) : String :=
+  if c.streams.isEmpty then "." else ";".intercalate (c.streams.map fun (sid, st) =>
+    let sm := st.sm
+    let b := fun (x : Bool) => if x then "1" else "0"
+    let cl := match sm.client with | some true => "T" | some false => "F" | none => "-"
+    let cb := match sm.closedBy with | some x => x.name | none => "-"
+    s!"{sid}:{sm.state.name}:{cb}:{st.outWin}:{st.inWM.current_window_size}:{st.inWM.max_window_size}:{b sm.headersSent}{b sm.trailersSent}{b sm.headersReceived}{b sm.trailersReceived}{cl}:{optStr st.expectedCL}:{st.actualCL}")
+
 def fmtObs (before after : Conn) (consumesOut : Bool) (o : Obs) : String :=
   let evs := o.events
   let evS := if evs.isEmpty then "." else " ".intercalate (evs.zipIdx.map fun (e, i) => fmtEvent evs i e)
@@ -130,7 +138,7 @@ def fmtObs (before after : Conn) (consumesOut : Bool) (o : Obs) : String :=
   let encS := if newEnc.isEmpty then "." else " ".intercalate (newEnc.map fmtEnc)
   let miss := (if after.hp.oracleMiss then " | ORACLE-MISS" else "")
     ++ (if !after.hp.encOracle.isEmpty || !after.hp.decOracle.isEmpty then " | ORACLE-LEFT" else "")
-  s!"{fmtRes o.res} | ev {evS} | out {outS} | enc {encS} | {peek after}{miss}"
+  s!"{fmtRes o.res} | ev {evS} | out {outS} | enc {encS} | {peek after} | ss={peekStreams after}{miss}"
 
 /-! ### op parsing -/
 
